@@ -18,7 +18,7 @@ CHECKS = {
             "cleared on every normal and exceptional exit; parameter validation precedes all work; a failed legalization exports nothing.",
             "Trusted: clang 14 front end; every call is treated as may-throw unless declared noexcept. Not decided: user callback behaviour.",
             "DESIGN.md 2/C10"),
-    "C19": ("interval evaluation under dominating guards (bounded subscripts, assert-precondition discharge), dominance of length/index validation over member writes, finite-domain constant folding of the parameter constructors and checks (efforts 1..9)",
+    "C19": ("interval evaluation under dominating guards (bounded subscripts, assert-precondition discharge), dominance of length/index validation over member writes, finite-domain constant folding of the parameter constructors and checks (efforts 1..9); early-exit scan of the parameter checks",
             "Input validation decided structurally for all argument values: array subscripts and asserting helpers are reached only under throwing "
             "range guards; every vector length and pin index is validated by throw before any member is written; a PlacementSolution is read only after its size was checked; no validation reads an already overwritten member; params.check() comes first and bounds each overlap by the window size of its own family; the parameters constructed for each effort 1..9 reach no throw of their own check (binary32/binary64 kept apart).",
             "Trusted: clang 14 front end; interval evaluator in cqverif/intervals.py; constant folder in cqverif/consteval.py (libm semantics of round/exp/log as in Python's math). Not decided: exception type/message; row geometry validation.",
@@ -29,17 +29,17 @@ CHECKS = {
             "unordered iteration never reaches a result, and exported coordinates are never read back.",
             "Trusted: clang 14 front end; std call classification tables. Not decided: bitwise floating-point reproducibility across machines.",
             "DESIGN.md 2/C08"),
-    "C17": ("qualifier typing: floating-point weight path + homogeneity-degree type system over the matrix builders (members and reassigned parameters included), scale-free comparisons and solver settings, guard dominance for the regulariser, argument provenance",
+    "C17": ("qualifier typing: floating-point weight path + homogeneity-degree type system over the matrix builders (members and reassigned parameters included), scale-free comparisons and solver settings, guard dominance for the regulariser, argument provenance; degree typing of the weight accessors",
             "The scaling clause is decided by typing for every net list: every matrix coefficient and right-hand-side increment is homogeneous of degree 1 in (weights, penalties), "
             "no comparison mixes degrees and no solver setting depends on the weight scale, the only degree-0 term is confined to rows no weighted term mentions, weights are stored and forwarded as floats without truncation or defaulting; no penalty spring is dropped by a position test and no per-net weight uses the model-wide pin count.",
             "Trusted: clang 14 front end; degree seeds (netWeight()/penaltyStrength/weight parameters). Not decided: least-squares optimality (solver numerics).",
             "DESIGN.md 2/C17"),
-    "C09": ("exhaustive table extraction (symbolic constant propagation over the orientation dispatch), structural loop-coverage / must-pass-through analysis, who-may-write",
+    "C09": ("exhaustive table extraction (symbolic constant propagation over the orientation dispatch), structural loop-coverage / must-pass-through analysis, who-may-write; X<->Y twin agreement of the incremental topology builders",
             "The 'for every cell orientation' clause is decided exhaustively: the 8x5 orientation table computed from the AST equals the DEF transform table with symbolic sizes and offsets. "
             "hpwl covers every pin on its own axis; the incremental model recomputes every net of a moved cell and keeps bounds and value in step; per-net accumulators are reset per net, nets are dropped only for having fewer than two pins, running extrema start on the neutral side and emptiness is tested non-strictly, and the builders read placed geometry.",
             "Trusted: clang 14 front end; rules/orientation_spec.json (DEF semantics as documented in coloquinte.hpp). Not decided: equality over whole update histories; int overflow (C07).",
             "DESIGN.md 2/C09"),
-    "C04": ("exhaustive table extraction of the polarity/orientation functions, edge-dominance analysis of admission predicates and commits, witness-variable provenance",
+    "C04": ("exhaustive table extraction of the polarity/orientation functions, edge-dominance analysis of admission predicates and commits, witness-variable provenance; exit discipline of getOrientation (only UNKNOWN keeps the incoming orientation)",
             "The orientation tables are decided exhaustively (50 cells) against the specification; every admission predicate of legalization and detailed placement "
             "admits a (cell,row) pair only under an orientation-compatibility test of that pair; commits use only admitted candidates; orientation stores come from the row the cell is placed on; cells without polarity keep their orientation; the circuit's polarities reach the models unchanged; orientations are written back for every placed cell, moved or not; the checker rejects INVALID.",
             "Trusted: clang 14 front end; rules/orientation_spec.json; the list of admission predicates in cqverif/rules/c04.py. Not decided: which admissible row is chosen.",
@@ -54,17 +54,17 @@ CHECKS = {
             "(original vs sorted sources/sinks) and the returned assignment has one original sink per original source; zero supplies/demands never reach the solver; totals are folded in 64 bits; no sorted view of the problem survives a change of the demands.",
             "Trusted: clang 14 front end; the domain seeds in rules/c14.json. Not decided: optimality/validity of the plan; numeric scan bounds inside the solver.",
             "DESIGN.md 2/C14"),
-    "C07": ("producer/consumer bit-width contradiction rules, implicit 64->32 narrowing and fold-accumulator width rules, triaged inventory of 32-bit products (rename-proof shape keys), may-be-minus-one taint to subscripts, interval proof of loop steps; positive controls",
+    "C07": ("producer/consumer bit-width contradiction rules, implicit 64->32 narrowing and fold-accumulator width rules, triaged inventory of 32-bit products (rename-proof shape keys), may-be-minus-one taint to subscripts, interval proof of loop steps; positive controls; literal -1 sentinel taint to subscripts",
             "Structural no-overflow / no-crash clauses decided for the whole library: no int product is widened after the fact, no 64-bit cost, area or demand is implicitly narrowed, folds accumulate at element width, every 32-bit product of two variables carries a bound argument, "
             "last-element indices cannot reach a subscript for an empty container, computed loop steps are non-zero, no assertion excludes a sentinel both sides may hold, no cell dimension (possibly zero) reaches an integer divisor untested, memoised members are re-derived by every writer of their inputs, window sizes and overlaps are paired within one family, parameter fields are forwarded to their namesakes, and the global placer's vectors are assigned before a step reads them.",
             "Trusted: clang 14 front end; the triage tables in rules/c07.json. Declined: general out-of-bounds freedom, assertion unreachability, division by zero other than by a cell dimension, termination of numeric iterations.",
             "DESIGN.md 2/C07"),
-    "C15": ("edge-dominance analysis of the obstacle filter, qualifier typing (geometry frame, axis, min/max argument roles), soundness check of obstacle skips, slicing-direction agreement, row provenance",
+    "C15": ("edge-dominance analysis of the obstacle filter, qualifier typing (geometry frame, axis, min/max argument roles), soundness check of obstacle skips, slicing-direction agreement, row provenance; exhaustive evaluation of placedWidth / placedHeight over the 8 orientations",
             "Decides which cells count as obstacles (fixed AND obstruction, placed footprint, extras kept), that every row is reduced by every obstacle and only full-height segments with the row's orientation are emitted, "
             "that geometry helpers never mix frames or axes, that the obstacle list is never pruned by the bounds of one particular row and obstacles are enlarged to the row's extent only when they really overlap it, that the per-cell vectors it reads are length-checked by their setters, and that every algorithm builder consumes the obstruction-free rows.",
             "Trusted: clang 14 front end; name-based axis seeds (min/max, X/Y, width/height). Declined: the set equality itself (semantics of boost::polygon's set difference).",
             "DESIGN.md 2/C15"),
-    "C18": ("who-may-write + edge-dominance guard analysis; path counting in the per-cell loop; inequality proving from dominating guards (order prover) for the non-narrowing clause; container-use classification; derived-state analysis",
+    "C18": ("who-may-write + edge-dominance guard analysis; path counting in the per-cell loop; inequality proving from dominating guards (order prover) for the non-narrowing clause; container-use classification; derived-state analysis; sibling-caller argument agreement for the row-area helper (margin convention)",
             "Frame and non-narrowing clauses: expansion functions write nothing but cellWidth_ and only under the movable test on the same index; the stored width is proved >= the old width (or the factor >= 1) from the dominating guards; "
             "computeCellExpansion is pure, gives each cell one factor, 1 for fixed cells and a running maximum from 1 over a region list that is never pruned and whose scan is bounded only by a sound binary search; the width cap comes from the widest row; no stale cache on the expansion path.",
             "Trusted: clang 14 front end; the positive-orthant domain of cqverif/order.py (sizes, areas, densities and factors are non-negative); the caller's factors are >= 1 (the property's domain). Declined: utilisation cap and rounding-carry arithmetic.",
@@ -94,7 +94,7 @@ CHECKS = {
             "every new bound is pushed at a position >= begin_ and none is left right of the position committed for the cell; a cached placement is reset by every updating path; clear() restores the constructor's values.",
             "Trusted: clang 14 front end; asserts of the function are used as stated invariants. Declined: order, overlap, containment, optimality and cost exactness beyond these necessary conditions (numerical).",
             "DESIGN.md 2/C12"),
-    "C16": ("who-may-write, post-dominance pairing of the two allocation representations, reachability analysis of empty-then-refill, loop coverage, X/Y twin agreement, index-level discipline and index-origin taint",
+    "C16": ("who-may-write, post-dominance pairing of the two allocation representations, reachability analysis of empty-then-refill, loop coverage, X/Y twin agreement, index-level discipline and index-origin taint; axis self-symmetry (X<->Y image) of the bin layout functions",
             "Decided structurally: the cell->bin maps and the bin->cells lists are always updated together and the redistribution paths (reoptimize, rebisect, refine, coarsen) can neither drop nor duplicate a cell; "
             "indices handed to the base grid are translated through the hierarchy limits; no bin index is derived from a coordinate division; capacities are accumulated region by region without carried scan state and row bounds are never offset in floating point.",
             "Trusted: clang 14 front end. Declined: capacity exactness/aggregation beyond the index-origin rule, coordinates inside the bin beyond the level discipline.",
